@@ -88,6 +88,14 @@ fn run_uist(sc: &Value) -> Value {
                 e.insert_order(uist_order_of(&op["order"]));
                 Value::Null
             }
+            // a large batch as ONE step (a snapshot of the growing buffer after every single insert is quadratic in the
+            // batch size: 15 GB for 4 097 orders)
+            "insert_many" => {
+                for o in arr(&op["orders"]) {
+                    e.insert_order(uist_order_of(o));
+                }
+                Value::Null
+            }
             "delete" => {
                 e.delete_order(u(&op["id"]));
                 Value::Null
